@@ -599,11 +599,15 @@ class Battery(Component):
         None
 
         """
+        self.SOC_min = self.standard_SOC_min
+        self.remaining_survival_time = Time(0)
         if self.SOC_start is None:
             self.set_SOC_state(SOC_state=self.standard_SOC_min)
         else:
             self.set_SOC_state(SOC_state=self.SOC_start)
         self.state = BatteryState.ACTIVE
+        self.p_inj = 0.0
+        self.q_inj = 0.0
         if save_flag:
             self.initialize_history()
 
